@@ -30,7 +30,7 @@ func bytesToID(b []byte) (ident, int, error) {
 func strToBytes(s string) ([]byte, error)      { return []byte(s), nil }
 func bytesToStr(b []byte) (string, int, error) { return string(b), len(b), nil }
 
-// keys: four short keys, two of which share the first byte of their SHA-256 path
+// keys: four short keys, two of which share the first byte of their SHA-256 path, and one a proper prefix of another
 var keys = func() []string {
 	first := map[byte]string{}
 	var pair []string
@@ -42,7 +42,7 @@ var keys = func() []string {
 		}
 		first[h[0]] = k
 	}
-	return append(pair, "x", "yy")
+	return append(pair, "x", "xy") // "x" is a proper prefix of "xy" (variable-length keys)
 }()
 
 var values = []string{"", "a", "b"}
